@@ -91,13 +91,21 @@ class Run(object):
 
 def build(spec, hist):
     run = Run(spec)
+    run.mon.live = False          # replaying a prefix: expensive per-step closures may be skipped
+    try:
+        _replay(run, hist)
+    finally:
+        run.mon.live = True
+    return run
+
+
+def _replay(run, hist):
     for ev in hist:
         results, viols = run.step(ev)
         if viols:
             run.destroy()
             raise W.HarnessError("violation while replaying a prefix (nondeterminism?): %r at %r" % (
                 [v.to_json() for v in viols], ev))
-    return run
 
 
 # ------------------------------------------------------------------ worker side
